@@ -349,7 +349,7 @@ class Ctx:
         if isinstance(v, VRef):
             self.assume_ref_wf(v)
         if isinstance(v, VDyn):
-            self.assume(z3.And(v.kind >= 0, v.kind <= 3))
+            self.assume(z3.And(v.kind >= 0, v.kind <= 4))
         return v
 
     def assume_ref_wf(self, v):
@@ -380,6 +380,7 @@ class Ctx:
             if isinstance(v, VBool): return [z3.IntVal(1), z3.StringVal(''), z3.If(v.term, 1, 0)]
             if isinstance(v, VInt): return [z3.IntVal(1), z3.StringVal(''), v.term]
             if isinstance(v, VStr): return [z3.IntVal(2), v.term, z3.IntVal(0)]
+            if isinstance(v, VBytes): return [z3.IntVal(4), v.term, z3.IntVal(0)]
             return [z3.IntVal(3), z3.StringVal(''), self.fresh('dyn_id', IntSort)]
         if isinstance(ty, _v._TOpaque):
             if isinstance(v, VOpaque) and v.term is not None:
